@@ -64,6 +64,7 @@ func c07(c *core.Ctx, r *core.Report) {
 
 	c07nil(c, r)
 	c07budget(c, r)
+	c07lasso(c, r)
 
 	// ---- R07.mode
 	r.Floor("R07.mode", 10, "14 LoadProgramOptions literals measured")
